@@ -52,6 +52,16 @@ CLAIMS = {
         note="dtype kinds are outside the claim (pandas C promotion rules cannot be encoded); internal lowered nodes are not collections and are not checked.",
         design="§4 C07",
     ),
+    "C11": dict(
+        category="translation_validation", engine="P+K",
+        technique="symbolic execution of the real optimised plans of selected vs unselected collections; z3 decides per-partition equality; selection failures replayed",
+        text="For in-memory sources of every kind (from_pandas, from_array, from_map, from_delayed with and without divisions, from_graph) and partitionwise chains with broadcast "
+             "operands, single-stage and staged shuffles and broadcast joins, every partition index list (single, reordered, repeated, full, reversed), to_delayed(), "
+             "head(n, npartitions=k) and tail(n) is proved to yield exactly the corresponding partitions / rows of the fully computed collection for all table contents, and "
+             "never to turn a computable query into an error.",
+        note="Trusted: symdf leaf models. Bounds: <=6 rows, <=4 partitions, index lists of length <=3 (+ full, reversed). File-backed sources (csv, parquet, timeseries) outside (parquet: C18).",
+        design="§4 C11",
+    ),
     "C12": dict(
         category="model_checking", engine="P",
         technique="symbolic execution of the real shuffle task graphs with one symbolic optional row per input partition and an uninterpreted hash; z3 decides per-row routing obligations",
